@@ -155,8 +155,23 @@ def gen_cseg(ctx, rng, n, notes, tlc_bases):
                 block2 = [max(1, b_ + rng.choice([-1, 0, 0, 1])) for b_ in block]
                 rq = (C2, shape2, block2, rng.choice(["uint32", "uint64"]))
                 kind += "+request"
-            case = cd.record_cseg_decode(buf, rq[0], rq[1], rq[2], rq[3])
+            warm = ()
+            if rq is req and rng.random() < 0.3:
+                # ONE decoder object: the valid chunk is decoded first, then these bytes are asked
+                # for - also the SAME bytes with another chunk size (a border chunk of the same
+                # block grid, a larger chunk)
+                warm = ((raw, tuple(shape)),)
+                kind += "+warm"
+                if rng.random() < 0.6:
+                    shape2 = list(shape)
+                    ax = rng.randrange(3)
+                    shape2[ax] = max(1, shape2[ax] + rng.choice([-1, -1, 1, block[ax], 2 * block[ax]]))
+                    rq = (C, shape2, block, dtype)
+                    buf = raw if rng.random() < 0.7 else buf
+                    kind += "+resize"
+            case = cd.record_cseg_decode(buf, rq[0], rq[1], rq[2], rq[3], warm=warm)
             out.append((case, {"codec": "compressed_segmentation", "mutation": kind, "buf": buf,
+                               "warm": [[bytes(w).hex(), list(sh)] for w, sh in warm],
                                "request": {"channels": rq[0], "shape_xyz": rq[1], "block": rq[2],
                                            "dtype": rq[3]}}))
     notes["cseg_bases_where_encoder_failed"] = enc_failed
@@ -293,6 +308,8 @@ def detail_of(case, meta):
            "observed": {k: d.get(k) for k in ("st", "cls", "msg", "shape", "dtype")}}
     if "field" in meta:
         det["field"] = meta["field"]
+    if meta.get("warm"):
+        det["warm"] = meta["warm"]
     if meta["codec"] == "jpeg":
         det["pil"] = {k: v for k, v in case["pil"].items() if k != "pix"}
     return det
@@ -419,8 +436,9 @@ def replay(ctx, path):
     d = rp["detail"]
     buf = bytes.fromhex(d["buf_hex"])
     rq = d["request"]
+    warm = tuple((bytes.fromhex(w), tuple(sh)) for w, sh in d.get("warm", []))
     if d["codec"] == "compressed_segmentation":
-        case = cd.record_cseg_decode(buf, rq["channels"], rq["shape_xyz"], rq["block"], rq["dtype"])
+        case = cd.record_cseg_decode(buf, rq["channels"], rq["shape_xyz"], rq["block"], rq["dtype"], warm=warm)
     elif d["codec"] == "raw":
         case = cd.record_raw_decode(buf, rq["channels"], rq["shape_xyz"], rq["dtype"])
     else:
